@@ -531,6 +531,49 @@ func c05Scenario(c *Ctx, idx int, r *Rng) {
 			}
 		}
 	}
+	// the same question to the Lean model (Pr.retainedRecent): refs with their tip times and, per commit
+	// clearly inside or outside the window (6 h clear of the boundary), the versions it replaced
+	var mrefs []string
+	moid := map[string]int{}
+	if !recentOff && commitsDays > 0 {
+		for _, tip := range tips {
+			cd, _ := w.git("log", "-1", "--format=%ct", tip.sha)
+			var u int64
+			fmt.Sscan(strings.TrimSpace(cd), &u)
+			var mcommits []string
+			since := time.Unix(u, 0).AddDate(0, 0, -(commitsDays + offsetDays)).Add(6 * time.Hour)
+			sinceLo := since.Add(-12 * time.Hour)
+			for _, l := range strings.Split(strings.TrimSpace(w.must("log", "--format=%H %ct %P", tip.sha)), "\n") {
+				f := strings.Fields(l)
+				if len(f) != 3 {
+					continue // root commits and merges: see below
+				}
+				var cu int64
+				fmt.Sscan(f[1], &cu)
+				ct := time.Unix(cu, 0)
+				if !ct.After(since) && ct.After(sinceLo) {
+					continue // too close to the boundary to ask
+				}
+				mine := treePtrs(w.dir, w.env, f[0])
+				var os_ []string
+				for p, o := range treePtrs(w.dir, w.env, f[2]) {
+					if mine[p] != o && !c05Excluded(exclude, p) {
+						if _, ok := moid[o]; !ok {
+							moid[o] = len(moid) + 1
+						}
+						os_ = append(os_, fmt.Sprint(moid[o]))
+					}
+				}
+				sort.Strings(os_)
+				mcommits = append(mcommits, fmt.Sprintf("%d=%s", cu, strings.Join(os_, "+")))
+			}
+			h := "r"
+			if tip.name == "HEAD" {
+				h = "h"
+			}
+			mrefs = append(mrefs, fmt.Sprintf("%s:%d:%s", h, u, strings.Join(mcommits, ";")))
+		}
+	}
 	if !recentOff && commitsDays > 0 {
 		for _, tip := range tips {
 			cd, _ := w.git("log", "-1", "--format=%ct", tip.sha)
@@ -640,6 +683,23 @@ func c05Scenario(c *Ctx, idx int, r *Rng) {
 		ret := map[string]bool{}
 		for _, m := range retainRe.FindAllStringSubmatch(out, -1) {
 			ret[m[1]] = true
+		}
+		if len(mrefs) > 0 && strings.Contains(out, "RETAIN") {
+			// every tip passed here is retained (HEAD or clearly recent): the model is told so by `now` = the tip's
+			// own time for non-HEAD refs would hide its window arithmetic, so the real `now` goes in
+			ans, err := c.Or.Ask([]string{fmt.Sprintf("C05 recent %d %d %d %d %s", s.now.Unix(), refsDays, commitsDays, offsetDays, strings.Join(mrefs, ","))})
+			if err == nil && ans[0] != "-" && ans[0] != "bad-op" {
+				rev := map[string]string{}
+				for o, n := range moid {
+					rev[fmt.Sprint(n)] = o
+				}
+				for _, n := range strings.Split(ans[0], ",") {
+					if o := rev[n]; o != "" && before[o] > 0 && !ret[o] {
+						c.R.Add(Finding{Kind: "diff", What: "retention windows: the model retains a previous version (replaced inside the window of a retained ref) that prune's retention tasks did not name", Case: clip(fmt.Sprintf("C05 scen seed=%d idx=%d steps=%s", c.Seed, idx, strings.Join(s.steps, " ; ")), 3000), Impl: o[:12], Model: clip(ans[0]+" <= "+strings.Join(mrefs, ","), 400), Broken: "corr.C05.windows"})
+					}
+				}
+				c.R.Count("windowsmodel")
+			}
 		}
 		ver := map[string]bool{}
 		for _, m := range verifiedRe.FindAllStringSubmatch(out, -1) {
